@@ -221,6 +221,21 @@ def subst_correspondence(ctx):
                 ctx.count('command-line substitution cases')
                 if re.search(r'\b' + re.escape(n2 + ':ref') + r'\b', n1 + ':ref'):
                     ctx.count('command-line substitution cases with overlapping texts')
+    # reference texts with a file part holding variable references (parentheses, dots: characters that mean something
+    # in a regular expression): the text is substituted literally (re.escape).  Other punctuation (+ [ | ? $) is not
+    # part of what discover_reference_strings takes for a reference, so such texts are never rewritten at all.
+    for n1 in ('a', 'x1', 'c_d', 'Loop'):
+        for f in ('%(v)s', 'out/%(name)s.txt', 'r-%(i)s/x.dat', 'd.x', '%(p)s/%(q)s'):
+            n2 = 'stop'
+            S, i = ctx.rng.choice([0, 1, 3]), ctx.rng.choice([0, 1, 2, 10, 11])
+            value = '%s/%s:ref %s:ref' % (n1, f, n2)
+            try:
+                got = F.rewrite_all_references(value, {}, set(), 0, S, iter_number=i, looped_ids={(S, n1), (S, n2)})
+            except Exception as e:
+                got = 'EXC:' + type(e).__name__
+            terms.append('(%s, %s, (%s, %s), %s)' % (cstr(n1 + '/' + f), cstr(n2), cN(S), cN(i), cstr(got)))
+            owners.append((n1 + '/' + f, n2, S, i, got))
+            ctx.count('command-line substitution cases with regular-expression characters in the file part')
     bad = ctx.model_mismatches('Require Import V.Lib.JTree V.Loop.Model V.Loop.Subst.\nOpen Scope N_scope.', terms,
                                'check_subst', chunk=300, name='c05subst')
     for i in bad:
